@@ -10,9 +10,16 @@ retry), never a verdict.
 """
 from __future__ import annotations
 
+import atexit
+import math
+import os
 import select
+import selectors
+import shutil
 import socket
 import ssl
+import subprocess
+import tempfile
 import threading
 import time
 from typing import Any
@@ -24,6 +31,75 @@ from vlib.c08_env import fmt
 from easynetwork.lowlevel.api_sync.transports.socket import SSLStreamTransport
 
 DEADLINE = 60.0
+BIG_HS_TIMEOUT = 10.0        # handshake_timeout of the big-certificate sessions (they take milliseconds when nothing is stuck)
+BIG_HS_TIMEOUT_AFTER = 3.0   # … once one such deadlock has been confirmed in this run (the run is a VIOLATION run by then)
+_confirmed_stuck = [0]
+
+_BIG: dict[int, tuple[ssl.SSLContext, ssl.SSLContext, ssl.SSLContext, ssl.SSLContext]] = {}
+_BIG_DIR: list[str] = []
+
+
+def big_ctxs(sans: int):
+    """contexts around a certificate with `sans` subjectAltName entries (about 46 bytes each), made with the openssl CLI into
+    a temporary directory from the key of the suite: (server, client) for a big SERVER certificate and (server, client) for a
+    big CLIENT certificate (mutual TLS).  A flight carrying it does not fit in a small socket send buffer: one
+    do_handshake() call wants read, then write, then read again."""
+    if sans in _BIG:
+        return _BIG[sans]
+    if not _BIG_DIR:
+        _BIG_DIR.append(tempfile.mkdtemp(prefix="verif-c08-bigcert-"))
+        atexit.register(shutil.rmtree, _BIG_DIR[0], True)
+    d = _BIG_DIR[0]
+    names = ",".join(["DNS:localhost"] + [f"DNS:host-{i:05d}.some-long-domain-name.example.org" for i in range(sans)])
+    cfg, cert = os.path.join(d, f"c{sans}.cnf"), os.path.join(d, f"c{sans}.pem")
+    with open(cfg, "w") as f:
+        f.write("[req]\ndistinguished_name=dn\nx509_extensions=ext\nprompt=no\n[dn]\nCN=localhost\n"
+                f"[ext]\nsubjectAltName={names}\nbasicConstraints=CA:TRUE\n")
+    try:
+        subprocess.run(["openssl", "req", "-x509", "-new", "-key", R.KEY, "-days", "2", "-config", cfg, "-out", cert],
+                       check=True, stdout=subprocess.DEVNULL, stderr=subprocess.PIPE, timeout=60)
+    except Exception as e:  # noqa: BLE001
+        raise core.InfraError(f"C08 blocking: cannot make the big certificate with the openssl CLI: {e}")
+
+    def srv(own: str, verify: str | None) -> ssl.SSLContext:
+        c = ssl.SSLContext(ssl.PROTOCOL_TLS_SERVER)
+        c.load_cert_chain(own, R.KEY)
+        c.minimum_version = ssl.TLSVersion.TLSv1_3
+        c.num_tickets = 0
+        if verify:
+            c.verify_mode = ssl.CERT_REQUIRED
+            c.load_verify_locations(verify)
+        return c
+
+    def cli(ca: str, own: str | None) -> ssl.SSLContext:
+        c = ssl.create_default_context(cafile=ca)
+        c.minimum_version = ssl.TLSVersion.TLSv1_3
+        if own:
+            c.load_cert_chain(own, R.KEY)
+        return c
+
+    _BIG[sans] = (srv(cert, None), cli(cert, None), srv(R.CERT, cert), cli(R.CERT, cert))
+    return _BIG[sans]
+
+
+def _spy_selector(first_wait: threading.Event, log: list):
+    base = getattr(selectors, "PollSelector", selectors.SelectSelector)
+
+    class SpySelector(base):  # type: ignore[misc,valid-type]
+        """the documented selector_factory hook, used to know WHEN the transport parks (so that the peer's ClientHello comes
+        after the first do_handshake()) and what its last wait was when a session does not finish"""
+
+        def register(self, fileobj, events, data=None):
+            self._ev = events
+            return super().register(fileobj, events, data)
+
+        def select(self, timeout=None):
+            first_wait.set()
+            res = super().select(timeout)
+            log.append(("R" if self._ev == selectors.EVENT_READ else "W", bool(res)))
+            return res
+
+    return SpySelector
 
 
 class _Relay(threading.Thread):
@@ -31,6 +107,7 @@ class _Relay(threading.Thread):
         super().__init__(daemon=True)
         self.x, self.y, self.frag, self.stop_ev = x, y, frag, stop
         self.seen: dict[int, bytearray] = {0: bytearray(), 1: bytearray()}     # 0: x->y (from the transport under test)
+        self.slow = 0            # the first `slow` bytes coming from the transport under test are taken slowly (3 ms per read)
 
     def run(self) -> None:
         socks = [self.x, self.y]
@@ -40,6 +117,8 @@ class _Relay(threading.Thread):
                 r, _, _ = select.select([s for s, o in zip(socks, open_) if o], [], [], 0.05)
                 for s in r:
                     i = socks.index(s)
+                    if i == 0 and len(self.seen[0]) < self.slow:
+                        time.sleep(0.003)          # slow reader: the send buffer of the transport under test does fill up
                     try:
                         d = s.recv(self.frag)
                     except OSError:
@@ -66,8 +145,9 @@ class _Relay(threading.Thread):
 
 class _Peer(threading.Thread):
     def __init__(self, sock: socket.socket, ctx: ssl.SSLContext, server_side: bool, to_send: bytes, expect: int,
-                 stop: threading.Event) -> None:
+                 stop: threading.Event, start_after: threading.Event | None = None) -> None:
         super().__init__(daemon=True)
+        self.start_after = start_after
         self.sock, self.ctx, self.server_side = sock, ctx, server_side
         self.to_send, self.expect, self.stop_ev = to_send, expect, stop
         self.received = bytearray()
@@ -79,6 +159,8 @@ class _Peer(threading.Thread):
             s = self.ctx.wrap_socket(self.sock, server_side=self.server_side, do_handshake_on_connect=False,
                                      server_hostname=None if self.server_side else "localhost")
             s.settimeout(DEADLINE)
+            if self.start_after is not None:
+                self.start_after.wait(5.0)          # slow peer: its first flight leaves once the transport under test is parked
             s.do_handshake()
             s.setblocking(False)
             view = memoryview(self.to_send)
@@ -118,7 +200,26 @@ def _once(case: dict) -> tuple[list[str], bool]:
     r2, b_sock = socket.socketpair()
     stop = threading.Event()
     relay = _Relay(r1, r2, case.get("frag", 4096), stop)
-    peer = _Peer(b_sock, R.client_ctx("1.3") if a_server else R.server_ctx("1.3", 0), not a_server, pb, len(pa), stop)
+    big = int(case.get("bigcert", 0))
+    first_wait = threading.Event()
+    waits: list = []
+    if big:
+        # direction flips inside ONE do_handshake(): the certificate flight of the transport under test (server certificate, or
+        # client certificate of a mutual-TLS client) overflows its tiny send buffer after it has waited for the peer's flight
+        s_big, c_big, s_mtls, c_mtls = big_ctxs(big)
+        a_ctx, b_ctx = (s_big, c_big) if a_server else (c_mtls, s_mtls)
+        a_sock.setsockopt(socket.SOL_SOCKET, socket.SO_SNDBUF, int(case.get("sndbuf", 4096)))
+        r1.setsockopt(socket.SOL_SOCKET, socket.SO_RCVBUF, int(case.get("sndbuf", 4096)))
+        a_kw: dict = {"selector_factory": _spy_selector(first_wait, waits)}
+        relay.slow = 98304
+        a_hs_timeout = BIG_HS_TIMEOUT_AFTER if _confirmed_stuck[0] else BIG_HS_TIMEOUT
+    else:
+        a_ctx, b_ctx = (R.server_ctx("1.3", 0), R.client_ctx("1.3")) if a_server else (R.client_ctx("1.3"), R.server_ctx("1.3", 0))
+        a_kw = {}
+        a_hs_timeout = DEADLINE
+    ri = case.get("retry_interval", 0.5)
+    ri = math.inf if ri == "inf" else float(ri)
+    peer = _Peer(b_sock, b_ctx, not a_server, pb, len(pa), stop, first_wait if big and a_server else None)
     relay.start()
     peer.start()
     lines: list[str] = []
@@ -128,11 +229,18 @@ def _once(case: dict) -> tuple[list[str], bool]:
     t_end = time.monotonic() + DEADLINE
     try:
         try:
-            tr = SSLStreamTransport(a_sock, R.server_ctx("1.3", 0) if a_server else R.client_ctx("1.3"), 0.5,
+            tr = SSLStreamTransport(a_sock, a_ctx, ri,
                                     server_side=a_server, server_hostname=None if a_server else "localhost",
-                                    handshake_timeout=DEADLINE, shutdown_timeout=1.0)
+                                    handshake_timeout=a_hs_timeout, shutdown_timeout=1.0, **a_kw)
         except TimeoutError:
             timed_out = True
+            if big:
+                # behaviour only: did the last wait of the transport end with nothing ready while the peer was still in its
+                # handshake (waiting for the rest of the flight)?
+                sig = bool(waits) and not waits[-1][1] and not peer.done.is_set()
+                lines.append(f"{'stuck' if sig else 'hs-timeout'} last-wait={waits[-1][0] if waits else '-'}:"
+                             f"{'ready' if waits and waits[-1][1] else 'none'} waits={len(waits)} "
+                             f"peer-done={int(peer.done.is_set())} flight-forwarded={len(relay.seen[0])}")
             return lines, True
         except Exception as e:  # noqa: BLE001
             lines.append(f"viol the handshake failed: {type(e).__name__}: {e}")
@@ -277,8 +385,18 @@ def decision_table(tr) -> list[str]:
 
 
 def run_blocking(case: dict) -> list[str]:
+    hs = []
     for attempt in range(2):
         lines, timed_out = _once(case)
         if not timed_out:
             return lines
-    raise core.InfraError("C08 blocking session did not finish within the harness deadline (machine load?)")
+        hs.append([ln for ln in lines if ln.startswith(("stuck ", "hs-timeout "))])
+    stuck = [x[0] for x in hs if x and x[0].startswith("stuck ")]
+    if case.get("bigcert") and all(hs) and stuck:
+        # watchdog confirmed by the re-run: twice, the handshake of the transport under test ended in its own TimeoutError
+        # (handshake_timeout), its last wait satisfied by nothing, the peer still waiting for the rest of the flight
+        _confirmed_stuck[0] += 1
+        return [f"viol the handshake did not complete within its handshake_timeout (twice): the transport's last wait "
+                f"({stuck[-1][6:]}) was never satisfied while the peer was waiting for the rest of its flight (deadlock)"]
+    raise core.InfraError("C08 blocking session did not finish within the harness deadline (machine load?)"
+                          + (f" {hs}" if any(hs) else ""))
